@@ -416,14 +416,16 @@ def judge_c05_exact(sc, gr):
         vals = [ev[t] for _, t in row]
         opt = max(vals) if who == P1 else min(vals)
         E = [a for (a, t), x in zip(row, vals) if x == opt]
-        if not acyclic:
-            distinct = sorted(set(vals))
-            tol = reward_eps(AR, gr.rewards, max(vals)) + DELTA
-            in_scope = all(float(b - a) > tol for a, b in zip(distinct, distinct[1:])) and \
-                all(x == 0 for x in vals if vals.count(x) > 1)
-            if not in_scope:
-                skipped += 1
-                continue
+        distinct = sorted(set(vals))
+        tol = reward_eps(AR, gr.rewards, max(vals)) + DELTA
+        separated = all(float(b - a) > tol for a, b in zip(distinct, distinct[1:]))
+        if acyclic:
+            in_scope = separated                  # exact ties are in scope; distinct values closer than the tolerance are not
+        else:
+            in_scope = separated and all(x == 0 for x in vals if vals.count(x) > 1)
+        if not in_scope:
+            skipped += 1
+            continue
         judged += 1
         if fs[s] != E:
             f.append(("C05/wrong-final-strategy", fs[s], E,
